@@ -214,28 +214,6 @@ namespace Obj
 
 end Obj
 
-inductive EOp where
-  | unit | inv | neg
-  deriving Repr, DecidableEq
-
-structure SymE where
-  src : Nat
-  hist : List EOp
-  deriving Repr, DecidableEq
-
-def symOps : ElemOps SymE where
-  unit s := ⟨s.src, .unit :: s.hist⟩
-  inv s := ⟨s.src, .inv :: s.hist⟩
-  neg s := ⟨s.src, .neg :: s.hist⟩
-
-def applyE (E : ElemOps ε) : EOp → ε → ε
-  | .unit => E.unit
-  | .inv => E.inv
-  | .neg => E.neg
-
-/-- value of a symbolic element: look the source element up, apply the recorded operations (oldest first) -/
-def evalSym (E : ElemOps ε) (lookup : Nat → ε) (s : SymE) : ε := s.hist.foldr (applyE E) (lookup s.src)
-
 theorem evalSym_hom (E : ElemOps ε) (lookup : Nat → ε) : ElemHom symOps E (evalSym E lookup) :=
   ⟨fun _ => rfl, fun _ => rfl, fun _ => rfl⟩
 
